@@ -2,8 +2,9 @@
    (a Python str is represented by its UTF-8 bytes).
    ANCHORS: streamflow.cwl.utils.remap_path, streamflow.cwl.utils.remap_token_value,
             streamflow.cwl.utils.get_token_class
-   Definitions only.  [remap_path] mirrors the code AFTER the fix (plain paths are not percent-decoded;
-   file:// locations are decoded, remapped and re-encoded with urllib.parse.quote);
+   Definitions only.  [remap_path] mirrors the code AFTER the fixes (plain paths are not percent-decoded;
+   file:// locations are decoded, remapped and re-encoded with urllib.parse.quote; a string containing ":/"
+   is a URL only if urlsplit finds a scheme in front of it); [remap_path_before_colon_fix] lacks the last;
    [remap_path_before_fix] is the code before it.
    Library functions modelled here, for the stated domains only:
      urllib.parse.unquote / quote (byte level; the decoded bytes must be valid UTF-8 for the Python str
@@ -131,8 +132,18 @@ Definition pjoin (a : string) (ps : list string) : string := fold_left join_step
 Definition remap_plain (old_dir new_dir p : string) : option string :=
   if is_abs p && is_abs old_dir then Some (pjoin new_dir (split_on "/" (relpath p old_dir))) else None.
 
-(* remap_path, repaired code *)
+(* remap_path, repaired code (both fixes):
+   if ":/" in path and (scheme := urlsplit(path).scheme): file -> remap the decoded path and re-encode,
+   other scheme -> unchanged;  else (no ":/", or no scheme in front of it) -> a plain path *)
 Definition remap_path (old_dir new_dir path : string) : option string :=
+  if has_colon_slash path && negb (String.eqb (scheme_of path) "") then
+    if String.eqb (scheme_of path) "file" then
+      option_map (fun p => String.append "file://" (quote p)) (remap_plain old_dir new_dir (unquote (drop 7 path)))
+    else Some path
+  else remap_plain old_dir new_dir path.
+
+(* remap_path after the percent fix but before the ":/" fix: every string containing ":/" is a URL *)
+Definition remap_path_before_colon_fix (old_dir new_dir path : string) : option string :=
   if has_colon_slash path then
     if String.eqb (scheme_of path) "file" then
       option_map (fun p => String.append "file://" (quote p)) (remap_plain old_dir new_dir (unquote (drop 7 path)))
